@@ -13,7 +13,10 @@ PARTIAL = [
     "boundary_points: at a clamped domain end the iso-curve / iso-surface is the first / last extracted curve / "
     "surface; the two end sections of a sweep are the input and its translate) for NON-RATIONAL evaluation "
     "(curvePoint / surfacePoint / volumePoint on the stored points); for rational shapes the statement holds for "
-    "the homogeneous points before the division by the weight, the projected form is not stated",
+    "the homogeneous points before the division by the weight, the projected form is not stated; the surface sweep "
+    "theorems carry the guard of the code / driver op (at least 3 spatial coordinates: Volume.set_ctrlpts raises for a "
+    "planar surface) and have corollaries with the generated knot vector knotGenerate 1 2 = [0,0,1,1] "
+    "(sweep_knot_vector_generated, sweep_*_boundary_points_generated: V(u,v,0) = S, V(u,v,1) = translate)",
     "the ctrlpts/weights split-and-recombine that construct_* and sweep_vector perform on rational shapes is "
     "modelled as the identity on homogeneous points (exact for non-zero weights; the arithmetic belongs to C09); "
     "sweep_rational_point proves that the homogeneous point map used for sweeps projects to the translate",
